@@ -1,11 +1,199 @@
 /-
-  C08 — same seed, same search (theorems are added below).
+  C08 — same seed, same search, within and across processes.
+
+  Inside one process determinism is immediate: the model is a function of the configuration and
+  the random stream (theorem 5; `same seed ⇒ same stream` is C18).  Across processes the only thing
+  that can differ is the iteration order of the Python `set`s of grammar symbols, which depends on
+  object addresses.  The model makes that order an explicit parameter (`GEVerif.Order`), and the
+  theorems say that no modelled function depends on it:
+
+  1. `sorted(set, key=str)` returns the same list for every enumeration of the set
+     (`C08_sorted_perm_invariant`), hence so does anything computed from it
+     (`C08_sorted_iteration_order_independent`);
+  2. SGE genotype creation AS REPAIRED is order-independent; AS IT WAS it is not (witness);
+  3. the stack machine's symbol pick AS REPAIRED is order-independent; AS IT WAS it is not (witness);
+  4. the grammar analysis still iterates a set, but its result is the unique solution of the
+     distance equations (C05), so the visiting order cannot matter;
+  5. tree synthesis has no input but configuration and stream.
+
+  Assumption (guaranteed by the harness): distinct symbols have distinct `str()` — the hypothesis
+  `∀ a ∈ xs, ∀ b ∈ xs, key a = key b → a = b`.
+
+  Partial by nature: CPython's address-dependent hashing and hidden interpreter state are outside
+  any model; the order parameter over-approximates the former, fresh interpreters sample the latter
+  (harness/props/c08.py).
+
+  NOT proved here (not cheap): "two scripted streams that agree on the first `k` draws give the
+  same run when the run consumes at most `k` draws" for `createNode`.
 -/
 import GEVerif.Model.Synth
+import GEVerif.Model.Order
+import GEVerif.Lemmas.Order
+import GEVerif.Props.C05
 
 namespace GEVerif.C08
-open GEVerif
+open GEVerif GEVerif.Order GEVerif.OrderLemmas GEVerif.Analysis
 
-theorem C08_placeholder : True := trivial
+/-! ### 1. `sorted` forgets the order of its input -/
+
+/-- `sorted(xs, key)` is a permutation of `xs` … -/
+theorem C08_sorted_perm {α : Type} (key : α → Nat) (xs : List α) : (sortBy key xs).Perm xs :=
+  sortBy_perm key xs
+
+/-- … in non-decreasing key order. -/
+theorem C08_sorted_sorted {α : Type} (key : α → Nat) (xs : List α) :
+    (sortBy key xs).Pairwise fun a b => key a ≤ key b :=
+  sortBy_sorted key xs
+
+/-- Two enumerations of the same collection whose elements have pairwise distinct keys sort to the
+same list. -/
+theorem C08_sorted_perm_invariant {α : Type} (key : α → Nat) {xs ys : List α}
+    (hperm : xs.Perm ys) (hinj : ∀ a ∈ xs, ∀ b ∈ xs, key a = key b → a = b) :
+    sortBy key xs = sortBy key ys :=
+  sortBy_perm_invariant key hperm hinj
+
+/-- Hence every computation that only sees the collection through `sorted(…)` — any loop
+`for x in sorted(symbols, key=str)` — is independent of the enumeration. -/
+theorem C08_sorted_iteration_order_independent {α β : Type} (key : α → Nat) (f : List α → β)
+    {xs ys : List α} (hperm : xs.Perm ys) (hinj : ∀ a ∈ xs, ∀ b ∈ xs, key a = key b → a = b) :
+    f (sortBy key xs) = f (sortBy key ys) :=
+  congrArg f (sortBy_perm_invariant key hperm hinj)
+
+/-! ### 2. SGE genotype creation -/
+
+/-- AS REPAIRED: for any two enumerations of the symbol set, `create_genotype` returns the same
+genotype (or the same error) and leaves the same state, from the same state. -/
+theorem C08_sge_create_order_independent (extra : List Key → List Key) (key : Key → Nat)
+    {xs ys : List Key} (hperm : xs.Perm ys)
+    (hinj : ∀ a ∈ xs, ∀ b ∈ xs, key a = key b → a = b) (L : Nat) (s : SynSt) :
+    sgeCreate extra key xs L s = sgeCreate extra key ys L s := by
+  unfold sgeCreate
+  rw [sortBy_perm_invariant key hperm hinj]
+
+/-- The repaired function is the old one run on the canonical order. -/
+theorem C08_sge_create_eq_with_sorted (extra : List Key → List Key) (key : Key → Nat)
+    (xs : List Key) (L : Nat) :
+    sgeCreate extra key xs L = sgeCreateWith extra (sortBy key xs) L := rfl
+
+/-- AS IT WAS (the defect that was repaired): with the set `{1, 2}` enumerated as `[1, 2]` and as
+`[2, 1]`, one gene per key and the scripted stream `5, 6, 7`, the two keys receive each other's
+genes. -/
+theorem C08_sge_create_order_dependent_witness :
+    let s : SynSt := { src := .scripted { draws := [5, 6, 7] } }
+    [1, 2].Perm [2, 1] ∧
+    resVal (sgeCreateWith (fun _ => []) [1, 2] 1 s) = some [(1, [5]), (2, [6]), (INFRA, [7])] ∧
+    resVal (sgeCreateWith (fun _ => []) [2, 1] 1 s) = some [(2, [5]), (1, [6]), (INFRA, [7])] ∧
+    resVal (sgeCreateWith (fun _ => []) [1, 2] 1 s) ≠ resVal (sgeCreateWith (fun _ => []) [2, 1] 1 s) := by
+  refine ⟨List.Perm.swap 2 1 [], ?_, ?_, ?_⟩ <;> decide
+
+/-! ### 3. Stack mapping -/
+
+/-- AS REPAIRED: the symbol a gene selects does not depend on the enumeration of the set. -/
+theorem C08_stack_pick_order_independent (key : Key → Nat) {xs ys : List Key}
+    (hperm : xs.Perm ys) (hinj : ∀ a ∈ xs, ∀ b ∈ xs, key a = key b → a = b) (i : Nat) :
+    stackPickSorted key xs i = stackPickSorted key ys i := by
+  unfold stackPickSorted
+  rw [sortBy_perm_invariant key hperm hinj]
+
+/-- AS IT WAS: the same gene selects different symbols under two enumerations of `{1, 2}`. -/
+theorem C08_stack_pick_order_dependent_witness :
+    [1, 2].Perm [2, 1] ∧ stackPick [1, 2] 0 = some 1 ∧ stackPick [2, 1] 0 = some 2 ∧
+    stackPick [1, 2] 0 ≠ stackPick [2, 1] 0 := by
+  refine ⟨List.Perm.swap 2 1 [], ?_, ?_, ?_⟩ <;> decide
+
+/-- A pick is always a member of the set, whatever the order, and exists iff the set is non-empty. -/
+theorem C08_stack_pick_mem (key : Key → Nat) (xs : List Key) (i : Nat) (k : Key)
+    (h : stackPickSorted key xs i = some k) : k ∈ xs := by
+  unfold stackPickSorted stackPick at h
+  exact (mem_sortBy key k xs).1 (List.mem_of_getElem? h)
+
+/-! ### 4. Grammar analysis (`Grammar.preprocess` iterates a set) -/
+
+/-- Two tables over the same keys that both solve the distance equations agree everywhere (C05):
+a loop visiting the symbols in another order, if it stops on a solution, stops on the same one. -/
+theorem C08_analysis_fixpoint_unique {g : GrammarSpec} {r : Reg} {d d' : DistTable}
+    (hfix : isFixpoint g r d = true) (hfix' : isFixpoint g r d' = true)
+    (hcl : Closed g r d) (hcl' : Closed g r d')
+    {rank : Nat → Nat} (hr : AltsRanked r rank)
+    (hkeys : ∀ s, s ∈ keys d ↔ s ∈ keys d') (s : Sym) :
+    lookupDist d s = lookupDist d' s :=
+  GEVerif.C05.C05_fixpoint_unique hfix hfix' hcl hcl' hr hkeys s
+
+/-- ANY solution of the equations over the registered symbols is the table the analysis reports,
+so the order in which Python's loop visits the symbol set cannot matter. -/
+theorem C08_analysis_order_independent (g : GrammarSpec) {rank : Nat → Nat}
+    (hrank : ParentRanked g.classes rank)
+    (hcl : Closed g (analyse g).reg (analyse g).dist)
+    {d' : DistTable} (hfix' : isFixpoint g (analyse g).reg d' = true)
+    (hkeys : ∀ s, s ∈ keys d' ↔ s ∈ (analyse g).reg.allNodes) (s : Sym) :
+    lookupDist d' s = lookupDist (analyse g).dist s :=
+  GEVerif.C05.C05_analyse_order_independent g hrank hcl hfix' hkeys s
+
+/-! ### 5. Synthesis is a function of configuration and stream -/
+
+/-- `create_node` has no input besides its configuration (grammar, decider, fuel, type, context,
+sibling values) and the synthesis state (the stream, PI-grow's flag, the dynamic-SGE genotype):
+two runs from equal states return equal results and leave equal states. -/
+theorem C08_model_run_is_function_of_stream (g : Grammar) (dec : Decider) (fuel : Nat) (ty : Ty)
+    (ctx : Ctx) (deps : List (String × Val)) (s₁ s₂ : SynSt) (h : s₁ = s₂) :
+    createNode g dec fuel ty ctx deps s₁ = createNode g dec fuel ty ctx deps s₂ :=
+  congrArg _ h
+
+/-- In particular two searches fed the same scripted draws build the same first tree. -/
+theorem C08_random_tree_same_draws (g : Grammar) (dec : Decider) (fuel : Nat)
+    (draws₁ draws₂ : List Nat) (h : draws₁ = draws₂) :
+    randomTree g dec fuel { src := .scripted { draws := draws₁ } } =
+      randomTree g dec fuel { src := .scripted { draws := draws₂ } } := by
+  rw [h]
+
+/-! ### Non-vacuity -/
+
+/-- keys in reverse numeric order (`str` order need not follow creation order) -/
+private def revKey : Key → Nat := fun k => 10 - k
+
+example : sortBy revKey [3, 1, 2] = [3, 2, 1] ∧ sortBy revKey [2, 3, 1] = [3, 2, 1] := by decide
+
+/-- the sort is stable: equal keys keep their input order -/
+example : sortBy (fun p : Nat × Nat => p.1) [(2, 0), (1, 0), (2, 1), (1, 1)] =
+    [(1, 0), (1, 1), (2, 0), (2, 1)] := by decide
+
+/-- theorem 1 on a concrete permutation with injective keys -/
+example : sortBy revKey [3, 1, 2] = sortBy revKey [2, 3, 1] :=
+  C08_sorted_perm_invariant revKey (xs := [3, 1, 2]) (ys := [2, 3, 1]) (by decide) (by decide)
+
+/-- the injectivity hypothesis is needed: with tied keys the (stable) result follows the input -/
+example : [(1, 0), (1, 1)].Perm [(1, 1), (1, 0)] ∧
+    sortBy (fun p : Nat × Nat => p.1) [(1, 0), (1, 1)] ≠
+      sortBy (fun p : Nat × Nat => p.1) [(1, 1), (1, 0)] :=
+  ⟨List.Perm.swap _ _ _, by decide⟩
+
+/-- the repaired SGE creation on the two enumerations of the witness: same genotype, and field
+types found on the way (`extra`) are keyed after the symbols -/
+example :
+    let s : SynSt := { src := .scripted { draws := [5, 6, 7, 8] } }
+    let extra : List Key → List Key := fun o => o.map (· + 10) |>.take 1
+    resVal (sgeCreate extra id [1, 2] 1 s) = some [(1, [5]), (2, [6]), (11, [7]), (INFRA, [8])] ∧
+    resVal (sgeCreate extra id [2, 1] 1 s) = some [(1, [5]), (2, [6]), (11, [7]), (INFRA, [8])] := by
+  decide
+
+example (s : SynSt) : sgeCreate (fun _ => []) id [1, 2] 3 s = sgeCreate (fun _ => []) id [2, 1] 3 s :=
+  C08_sge_create_order_independent _ id (List.Perm.swap 2 1 []) (by decide) 3 s
+
+/-- the repaired stack pick -/
+example : stackPickSorted revKey [1, 2, 3] 4 = some 2 ∧ stackPickSorted revKey [2, 3, 1] 4 = some 2 := by
+  decide
+
+example (i : Nat) : stackPickSorted revKey [1, 2, 3] i = stackPickSorted revKey [2, 3, 1] i :=
+  C08_stack_pick_order_independent revKey (xs := [1, 2, 3]) (ys := [2, 3, 1]) (by decide) (by decide) i
+
+/-- theorem 4 on the example grammar of C05: the analysed table listed in REVERSE order is another
+table over the same keys that solves the equations; it agrees with the reported one everywhere -/
+example (s : Sym) :
+    lookupDist (analyse (exSpec false)).dist.reverse s = lookupDist (analyse (exSpec false)).dist s :=
+  C08_analysis_order_independent (exSpec false) (exRanked false) (by decide) (by decide)
+    (fun x => by
+      rw [show keys (analyse (exSpec false)).dist.reverse
+            = (analyse (exSpec false)).reg.allNodes.reverse from by decide]
+      exact List.mem_reverse) s
 
 end GEVerif.C08
